@@ -481,7 +481,7 @@ class ReadOnlyIndexedFieldArray:
         """
         Get datatype of field. Please note constructing a numpy array from IndexedString data can be very memory expensive.
         """
-        if len(self._indices) > 0:
+        if len(self._indices) > 1:
             max_len = np.max(self._indices[1:] - self._indices[:-1])
         else:
             max_len = 0
@@ -582,7 +582,7 @@ class WriteableIndexedFieldArray:
         Returns datatype of field. Please note constructing a numpy array from IndexedString data can be very memory expensive.
         :return: dtype
         """
-        if len(self._indices) > 0:
+        if len(self._indices) > 1:
             max_len = np.max(self._indices[1:] - self._indices[:-1])
         else:
             max_len = 0
@@ -698,6 +698,9 @@ class WriteableIndexedFieldArray:
                 self._indices.write_part(np.array([0]))
             self._indices.write(self._raw_indices[:self._index_index])
             self._index_index = 0
+        elif len(self._indices) == 0:
+            # a completed field holds one offset more than it has entries: an empty one holds the leading 0
+            self._indices.write(np.array([0]))
 
 
 # Memory-based fields
